@@ -7,6 +7,7 @@ open MemVerif.Model
 structure StackSt where
   cfg : Cfg := {}
   stack : Option MemStack := none
+  stack2 : Option MemStack := none
   moved : Option MemStack := none
   iter : Option Iter := none
   iterMoved : Option Iter := none
@@ -99,6 +100,26 @@ def stackStep (st : StackSt) (op : List String) (env : List (Option Nat)) (obsSt
     | ["move"] =>
       let (n, old) := s.moveOut
       ({ st with stack := some n, moved := some old }, "done", "", n.str)
+    | ["new2", b] =>
+      -- a second stack of the same kind on the same upstream
+      match initialSrc st.subject (nat! b) obsState with
+      | none => (st, "bad-src", "", "-")
+      | some src =>
+        let (s2, out, ev) := MemStack.create src env
+        ({ st with stack2 := s2 }, outStr out, upStr ev, (s2.map MemStack.str).getD "-")
+    | ["switch"] =>
+      match st.stack2 with
+      | none => (st, "no-object", "", "-")
+      | some s2 => ({ st with stack := some s2, stack2 := some s }, "done", "", s2.str)
+    | ["move_assign"] =>
+      -- `*primary = std::move(*secondary)`: `memory_arena tmp(move(other)); swap(*this, tmp);` and `~tmp` releases what the
+      -- primary owned (cache first, most recently acquired block first); top, source and leak count come from the secondary
+      match st.stack2 with
+      | none => (st, "no-object", "", "-")
+      | some s2 =>
+        let (_, ev, _) := s.arena.destroy cfg
+        let (n, old) := s2.moveOut
+        ({ st with stack := some n, stack2 := none, moved := some old }, "done", upStr ev, n.str)
     | ["destroy_moved_from"] =>
       match st.moved with
       | none => (st, "no-object", "", "-")
